@@ -128,6 +128,8 @@ def _install_wrappers():
     orig_exec = Transaction.execute
 
     def txn_execute(self):
+        if CUR is not None:
+            _dispatch("txn_execute_before", self)
         n = orig_exec(self)
         if CUR is not None:
             _dispatch("txn_execute", self, n)
@@ -715,7 +717,7 @@ class Monitor:
 
 
 HOOKS = (
-    "order_created status_before status request_before request_after txn_execute txn_exit package exec_before "
+    "order_created status_before status request_before request_after txn_execute_before txn_execute txn_exit package exec_before "
     "exec_after before_matching after_matching add_transaction results close_before close_after "
     "remove_market strategy_call strategy_closed log update_start update_end begin end control_error scripted_control_called"
 ).split()
